@@ -44,6 +44,7 @@ func NewGzipHandler(h http.Handler, contentTypes *regexp.Regexp) http.Handler {
 
 		if acceptsGzip(r) {
 			gzWriter := NewGzipResponseWriter(w, contentTypes)
+			gzWriter.head = r.Method == http.MethodHead
 			defer gzWriter.Close()
 			h.ServeHTTP(gzWriter, r)
 		} else {
@@ -56,6 +57,7 @@ type GzipResponseWriter struct {
 	writer       io.Writer
 	gzipWriter   *gzip.Writer
 	contentTypes *regexp.Regexp
+	head         bool // answer to a HEAD request
 	http.ResponseWriter
 }
 
@@ -98,7 +100,11 @@ func (grw *GzipResponseWriter) Write(b []byte) (int, error) {
 
 func (grw *GzipResponseWriter) Close() {
 	if grw.gzipWriter != nil {
-		grw.gzipWriter.Close()
+		// The answer to a HEAD request has no body. The frame of an empty
+		// gzip stream would be counted and sent as its Content-Length.
+		if !grw.head {
+			grw.gzipWriter.Close()
+		}
 		gzipWriterPool.Put(grw.gzipWriter)
 	}
 }
